@@ -5,6 +5,7 @@ import (
 	"encoding/json"
 	"fmt"
 	"reflect"
+	"strings"
 	"testing"
 
 	"pgregory.net/rapid"
@@ -133,6 +134,7 @@ func compareExtensions(prefix string, dec *decoded, want []core.Extension, ctx e
 type extCase struct {
 	W        World
 	Siblings bool `json:",omitempty"`
+	Wrapped  bool `json:",omitempty"` // some raw value is written as line-wrapped base64 (may be refused, must not be cut)
 }
 
 // runExtWorld runs the world and checks every entity's extensions. It returns
@@ -179,6 +181,9 @@ func runExtWorld(prefix string, w *World) (*core.Failure, string) {
 			return core.Failf(prefix+"/undefined-extension-no-error", "entity %s has an effective extension without content but the run reported success: %s\n%v", refuse, res.String(), w.Texts()), "refusal"
 		}
 		return nil, "refusal"
+	}
+	if (!res.OK() || res.Generated != len(w.Ents)) && worldHasOversizeText(w) {
+		return nil, "oversize-text-refused" // no claim
 	}
 	if !res.OK() || res.Generated != len(w.Ents) {
 		return core.Failf(prefix+"/run-failed", "run over valid configs failed or generated %d of %d: %s\n%v", res.Generated, len(w.Ents), res.String(), w.Texts()), "failed"
@@ -372,6 +377,9 @@ func TestC06(t *testing.T) {
 	r.Assumptions = []string{"profile entries that are encoding-equal but textually different from a same-OID certificate entry (or vice versa) are dropped from generated profiles, since 'differs' is then ambiguous"}
 	wrap := func(c extCase) *core.Failure {
 		f, kind := runExtWorld("C06", &c.W)
+		if f != nil && c.Wrapped && (strings.HasSuffix(f.Sig, "/run-failed") || strings.HasSuffix(f.Sig, "/rerun-failed")) {
+			f, kind = nil, "wrapped-base64-refused" // no claim
+		}
 		nt := false
 		cls := []string{"outcome:" + kind}
 		for i := range c.W.Ents {
@@ -506,6 +514,9 @@ func TestC06(t *testing.T) {
 			// the extension list does not depend on the version number written into the certificate
 			e := &c.W.Ents[len(c.W.Ents)-1]
 			e.Manip = &core.Manip{Version: core.Int64P(int64(rapid.SampledFrom([]int{0, 1, 2, 3, -1}).Draw(t, "version")))}
+		}
+		if rapid.Bool().Draw(t, "wrap-long-base64") {
+			c.Wrapped = wrapWorldRaws(&c.W)
 		}
 		return c
 	}
